@@ -133,9 +133,11 @@ class FakeSqlite:
 
 # ---------------------------------------------------------------------------------------------- tokenizer of the delivered SQL
 _OP = r"\?|%s|[:$]\d+|:[A-Za-z_]\w*|%\(\w+\)s|-?\d+"
+_STRAY = r"\?|%s|(?<![\w:])[:$]\d+|(?<![\w:]):[A-Za-z_]\w*|%\(\w+\)s"
 _TOK = re.compile(r"(?P<single>(?P<op>%s) \+ 0 \* (?P<tag1>7\d{6}))"
-                  r"|(?P<inlist>\+ 0 \* (?P<tag2>7\d{6})\) (?:NOT )?IN \((?P<items>(?:%s)(?:, (?:%s))*|SELECT 1 FROM \(SELECT 1\) WHERE 1!=1)\))"
-                  r"|(?P<pct2>%%%%)|(?P<stray>%s)|(?P<pct1>%%)" % (_OP, _OP, _OP, r"\?|%s|(?<![\w:])[:$]\d+|(?<![\w:]):[A-Za-z_]\w*|%\(\w+\)s"))
+                  r"|(?P<inlist>\+ 0 \* (?P<tag2>7\d{6})\)? (?:NOT )?IN \()"
+                  r"|(?P<pct2>%%%%)|(?P<stray>%s)|(?P<pct1>%%)" % (_OP, _STRAY))
+_OPLIST = re.compile(r"^(?:%s)(?:, (?:%s))*$" % (_OP, _OP))
 
 
 def _ph(op):
@@ -155,15 +157,30 @@ def _ph(op):
 def tokenize(sql, expected):
     """delivered SQL text -> token list for ParamStyle.tla (mode trace); expected: {tag: [values]} ; returns (tokens, problems)"""
     toks, problems, seen = [], [], set()
-    for m in _TOK.finditer(sql):
+    pos = 0
+    while True:
+        m = _TOK.search(sql, pos)
+        if not m:
+            break
+        pos = m.end()
         if m.group("single"):
             tag = int(m.group("tag1")) - TAG0
             toks.append(dict(t="grp", toks=[_ph(m.group("op"))], exp=expected.get(tag, [-999]), tag=tag))
             seen.add(tag)
         elif m.group("inlist"):
             tag = int(m.group("tag2")) - TAG0
-            items = m.group("items")
-            ops = [] if items.startswith("SELECT") else items.split(", ")
+            depth, j = 1, pos
+            while depth and j < len(sql):
+                depth += {"(": 1, ")": -1}.get(sql[j], 0)
+                j += 1
+            items = sql[pos:j - 1]
+            pos = j
+            if _OPLIST.match(items):
+                ops = items.split(", ")
+            else:                       # the dialect's empty-set expression: no placeholder may hide in it
+                ops = []
+                if re.search(_STRAY, items):
+                    problems.append("placeholder inside an IN list that is not a plain list: %s" % items)
             toks.append(dict(t="grp", toks=[_ph(o) for o in ops], exp=expected.get(tag, [-999]), tag=tag))
             seen.add(tag)
         elif m.group("pct2"):
@@ -283,11 +300,36 @@ class Builder:
         if having is not None:
             s = s.group_by(t.c.id, t.c.x).having(having)
         s = s.order_by(*([order] if order is not None else []), t.c.id)
-        if limit is not None:
-            s = s.limit(limit)
-        if offset is not None:
-            s = s.offset(offset)
+        if limit is not None or offset is not None:
+            # always both: a dialect supplies the missing one as a bound parameter of its own (SQLite: LIMIT -1 / OFFSET 0)
+            s = s.limit(limit if limit is not None else sa.literal_column("1000"))
+            s = s.offset(offset if offset is not None else sa.literal_column("0"))
         return s, expected, "select"
+
+
+class _FakeCursor:
+    description = None
+    rowcount = -1
+    arraysize = 1
+
+    def close(self):
+        pass
+
+
+class _FakeDBAPIConnection:
+    def cursor(self, *a, **kw):
+        return _FakeCursor()
+
+
+def deliver_foreign(dialect, stmt):
+    """(statement, parameters) exactly as DefaultExecutionContext._init_compiled assembles them for a driver that is not
+    executable here: the real execution context of the dialect over a connection that is never used"""
+    import types
+    compiled = stmt.compile(dialect=dialect)
+    eng = types.SimpleNamespace(dialect=dialect, _should_log_info=lambda: False, _should_log_debug=lambda: False, logging_name=None, echo=False)
+    conn = types.SimpleNamespace(dialect=dialect, engine=eng, _execution_options={}, _echo=False)
+    ctx = dialect.execution_ctx_cls._init_compiled(dialect, conn, _FakeDBAPIConnection(), {}, compiled, [{}], stmt, None)
+    return ctx.statement, ctx.parameters[0]
 
 
 def main(chk):
@@ -351,9 +393,9 @@ def main(chk):
     ref_engine = sa.create_engine("sqlite:///" + path)
     builder = Builder(sa, md)
     from sqlalchemy.dialects.postgresql import asyncpg, psycopg2, psycopg, pg8000
-    from sqlalchemy.dialects.mysql import pymysql, mysqldb
+    from sqlalchemy.dialects.mysql import pymysql, mysqldb, mariadbconnector
     foreign = {"psycopg2": psycopg2.dialect(), "asyncpg": asyncpg.dialect(), "psycopg": psycopg.dialect(), "pg8000": pg8000.dialect(),
-               "pymysql": pymysql.dialect(), "mysqldb": mysqldb.dialect()}
+               "pymysql": pymysql.dialect(), "mysqldb": mysqldb.dialect(), "mariadbconnector": mariadbconnector.dialect()}
 
     def run(engine, s, fam):
         with engine.connect() as conn:
@@ -394,12 +436,15 @@ def main(chk):
         clauses = "+".join(o["c"] for o in stmt["occ"])
         for o in stmt["occ"]:
             cov[o["c"]] = cov.get(o["c"], 0) + 1
+        ncls = "escaped" if any(re.search(r"\W", names[b]) for b in bs) else "plain"
         for style in STYLES:
             del logs[style][:]
             s, expected, fam = builder.build(stmt, names)
             rows = run(engines[style], s, fam)
             nexec += 1
-            sig = dict(spec="ParamStyle", style=style, scope=scope, family=fam, kinds=kinds)
+            sig = dict(spec="ParamStyle", style=style, scope=scope, family=fam, kinds=kinds, names=ncls,
+                       error=(rows.split(":")[0] + (":KeyError" if "KeyError" in rows else ":AssertionError" if "AssertionError" in rows else ""))
+                       if isinstance(rows, str) else None)
             delivered = [e for e in logs[style] if not e[0].startswith("SELECT id, a, b FROM w")]
             if rows != ref:
                 chk.violation(dict(sig, action="rows", clauses=clauses), "%s [%s] names %r: rows %r, with inline values %r | delivered %r"
@@ -424,24 +469,35 @@ def main(chk):
         # compile-only dialects of drivers without a server: the expanded statement must tokenize and account for every occurrence
         for dn, d in foreign.items():
             s, expected, fam = builder.build(stmt, names)
-            st = s.compile(dialect=d).construct_expanded_state()
-            ptup = st.positiontup
-            toks, problems = tokenize(re.sub(r"::\w+( \w+)*", "", st.statement), expected)
+            fsig = dict(spec="ParamStyle", style=d.paramstyle, scope=scope, family=fam, kinds=kinds, names=ncls, dialect=dn)
+            try:
+                fsql, fparams = deliver_foreign(d, s)
+            except (KeyError, AssertionError) as ex_:
+                chk.violation(dict(fsig, action="expand", error="%s" % type(ex_).__name__, clauses=clauses),
+                              "%s: compiling / expanding [%s] names %r raises %s(%s)" % (dn, clauses, [names[b] for b in bs], type(ex_).__name__, ex_),
+                              dict(stmt=stmt, names=names, dialect=dn))
+                continue
+            toks, problems = tokenize(re.sub(r"::\w+( \w+)*", "", fsql), expected)
             if problems:
-                chk.machinery("tokenizer (%s): %s in %s" % (dn, problems, st.statement))
+                chk.machinery("tokenizer (%s): %s in %s" % (dn, problems, fsql))
             style = d.paramstyle
-            if ptup is not None:
-                p = [st.parameters[k] for k in ptup]
-            else:
-                p = [[k, v] for k, v in st.parameters.items()]
+            p = [[k, v] for k, v in fparams.items()] if isinstance(fparams, dict) else list(fparams)
             ntr += 1
             tid2 = "%s/%s" % (tid, dn)
-            trace_meta[tid2] = (dict(spec="ParamStyle", style=style, scope=scope, family=fam, kinds=kinds, dialect=dn), clauses, names, st.statement, p, stmt)
+            trace_meta[tid2] = (fsig, clauses, names, fsql, p, stmt)
             tf.write(json.dumps(dict(id=tid2, style=style, sql=[{k: v for k, v in t_.items() if k != "tag"} for t_ in toks], params=p)) + "\n")
         if len(samples) < 3 and len(stmt["occ"]) >= 3 and "expanding" in kinds:
             samples.append(dict(clauses=clauses, names=[names[b] for b in bs], delivered={s_: [str(x) for x in logs[s_][0]] if logs[s_] else None for s_ in ("qmark", "numeric", "pyformat")}))
 
-    for i, stmt in enumerate(stmts):
+    import time
+    t_replay = time.time()
+    todo = list(enumerate(stmts))
+    if chk.quick:           # every statement of <=2 occurrences, a seeded sample of the larger ones (TLC has checked all of them)
+        small = [x for x in todo if len(x[1]["occ"]) <= 2]
+        large = [x for x in todo if len(x[1]["occ"]) > 2]
+        rng.shuffle(large)
+        todo = small + large[:500]
+    for i, stmt in todo:
         names = NAMES_ESC if i % 2 else NAMES_PLAIN
         one("m%d" % i, stmt, names, "model")
     # ---- names that need escaping: a fixed shape (two plain binds in SELECT list and WHERE, one expanding IN with 2 values)
@@ -449,7 +505,12 @@ def main(chk):
                  binds=[dict(kind="plain", n=0), dict(kind="plain", n=0), dict(kind="expanding", n=2)])
     for i, nc in enumerate(name_cases):
         names = {1: nc["names"][0], 2: nc["names"][1], 3: nc["names"][2]}
-        one("n%d" % i, shape, names, "names-distinct-keys" if nc["distinct"] else "names-colliding-keys")
+        esc = lambda n: re.sub(r"[%():\[\]. ]", lambda m_: {"%": "P", "(": "A", ")": "Z", ":": "C"}.get(m_.group(0), "_"), n)
+        e1, e2, e3 = (esc(n) for n in nc["names"])
+        kinds_ = (["escape"] if e1 == e2 else []) + (["expanded"] if {e3 + "_1", e3 + "_2"} & {e1, e2} else [])
+        if bool(kinds_) == nc["distinct"]:
+            chk.machinery("the harness and ParamStyle.tla disagree on whether %r collide" % (nc["names"],))
+        one("n%d" % i, shape, names, "names-distinct-keys" if nc["distinct"] else "names-colliding-keys:" + "+".join(kinds_))
     tf.close()
     # ------------------------------------------------------------------ TLC: trace validation of everything the cursors received
     cfg = tlc.cfg(constants=dict(Mode=tlc.q("trace"), MaxOcc=1, NBinds=1, Family=tlc.q("select")),
@@ -480,7 +541,7 @@ def main(chk):
         e.dispose()
     return chk.finish(
         dict(states=sum(r.distinct for r in rm) + rn.distinct + rt.distinct, transitions=sum(r.generated for r in rm) + rn.generated + rt.generated,
-             traces_validated_against_impl=ntr, statements=len(stmts), name_cases=len(name_cases), evaluations=nexec + ntr,
+             traces_validated_against_impl=ntr, statements=len(stmts), statements_replayed=len(todo), replay_wall_s=round(time.time() - t_replay, 1), name_cases=len(name_cases), evaluations=nexec + ntr,
              sqlite_executions=nexec, distinct_nontrivial=sensitive, clause_coverage=cov, samples=samples, tlc_runs=runs, exhaustive=True,
              rule="one case per statement (sequence of clause occurrences x bind kinds) TLC initial state; executed under six paramstyles; "
                   "non-trivial = exchanging the values of two binds changes the rows of the statement (measured with inline values)",
